@@ -115,7 +115,8 @@ Definition decode_content (fuel : nat) (info : N) (bs : list N) : res bcontent :
   let r := N.land info 15 in
   if r =? C_BLOCK_ITEM_DELETED_REF_NUMBER then rmap BDeleted (read_var_u32 bs)
   else if r =? C_BLOCK_ITEM_JSON_REF_NUMBER then
-    let* (n, rest) := read_var_u32 bs in rmap BJson (read_strings fuel n rest [])
+    (* `decoder.read_len()? as i32`: a length >= 2^31 is negative and the loop `while remaining > 0` does not run *)
+    let* (n, rest) := read_var_u32 bs in rmap BJson (read_strings fuel (if n <? 2147483648 then n else 0) rest [])
   else if r =? C_BLOCK_ITEM_BINARY_REF_NUMBER then rmap BBinary (read_buf bs)
   else if r =? C_BLOCK_ITEM_STRING_REF_NUMBER then rmap BString (read_string bs)
   else if r =? C_BLOCK_ITEM_EMBED_REF_NUMBER then rmap BEmbed (read_string bs)
@@ -158,7 +159,7 @@ Fixpoint decode_blocks (fuel : nat) (n : N) (client clock : N) (bs : list N) (ac
     | Some b =>
       match add32_checked clock (block_len b) with
       | Some clock' => decode_blocks f (n - 1) client clock' rest (b :: acc)
-      | None => Panic P_ADD_U32
+      | None => Err UnexpectedValue
       end
     end
   end.
